@@ -25,6 +25,7 @@ FUNCS = [
     dict(name='c', arity=1, ret='int', argk=['int']),
     dict(name='u', arity=1, ret='int', argk=['uptr']),
     dict(name='s', arity=1, ret='str', argk=['str']),
+    dict(name='k', arity=1, ret='cref', argk=['cint']),
 ]
 
 # matcher kinds (must match sim::MK in shape.hpp)
@@ -52,7 +53,7 @@ BOUNDS = {
     'T0': (0, 0, '.TIMES(0)'),
 }
 # return kinds (sim::RK)
-RK = ['NONE', 'VAL', 'LRVAL', 'THROW_STD', 'THROW_INT', 'REF_PARAM', 'REF_CELL', 'STR', 'LRSTR']
+RK = ['NONE', 'VAL', 'LRVAL', 'THROW_STD', 'THROW_INT', 'REF_PARAM', 'REF_CELL', 'STR', 'LRSTR', 'CREF_PARAM', 'CREF_CELL', 'CREF_CAPT']
 
 
 def matcher_text(kind, argk, vi):
@@ -62,7 +63,7 @@ def matcher_text(kind, argk, vi):
     if kind == 'ANY':
         return 'trompeloeil::_'
     if kind == 'TYPEDANY':
-        return {'int': 'ANY(int)', 'intref': 'ANY(int&)', 'str': 'ANY(const std::string&)',
+        return {'int': 'ANY(int)', 'intref': 'ANY(int&)', 'cint': 'ANY(const int&)', 'str': 'ANY(const std::string&)',
                 'uptr': 'ANY(std::unique_ptr<sim::Tracked>)'}[argk]
     if kind == 'VAL':
         return v
@@ -109,7 +110,7 @@ def gen_shape(rng, sid, fn, force=None):
             kind = rng.choice(['ANY', 'ANY', 'TYPEDANY'])
         elif ak == 'str':
             kind = rng.choice(['ANY', 'VAL', 'EQ', 'NE', 'ANYOF', 'TYPEDANY'])
-        elif ak == 'intref':
+        elif ak in ('intref', 'cint'):
             kind = rng.choice(['ANY', 'VAL', 'EQ', 'NE', 'LT', 'GE', 'TYPEDANY'])
         else:
             kind = rng.choice(['ANY'] * 3 + ['VAL'] * 3 + ['EQ', 'NE', 'LT', 'LE', 'GT', 'GE', 'NOTEQ', 'ANYOF', 'TYPEDANY'])
@@ -149,6 +150,8 @@ def gen_shape(rng, sid, fn, force=None):
         rk = rng.choice(['VAL'] * 5 + ['LRVAL'] * 2 + ['THROW_STD', 'THROW_INT'])
     elif f['ret'] == 'ref':
         rk = rng.choice(['REF_PARAM', 'REF_CELL', 'REF_CELL', 'THROW_STD'])
+    elif f['ret'] == 'cref':
+        rk = rng.choice(['CREF_PARAM', 'CREF_PARAM', 'CREF_CELL', 'CREF_CELL', 'CREF_CAPT', 'CREF_CAPT', 'THROW_STD'])
     else:
         rk = rng.choice(['STR', 'STR', 'LRSTR', 'THROW_STD'])
     rk = force.get('rk', rk)
@@ -215,6 +218,9 @@ def render(d):
                 'THROW_INT': '.THROW(sim::thr_int(x.id, x.snap))',
                 'REF_PARAM': '.LR_RETURN(sim::retref(x.id, x.snap, _1, %s))' % addr,
                 'REF_CELL': '.LR_RETURN(sim::retref(x.id, x.snap, *x.cell, %s))' % addr,
+                'CREF_PARAM': '.RETURN(sim::retcref(x.id, x.snap, _1, %s))' % addr,
+                'CREF_CELL': '.LR_RETURN(sim::retref(x.id, x.snap, *x.cell, %s))' % addr,
+                'CREF_CAPT': '.RETURN(sim::retcref(x.id, x.snap, x.v[0], %s))' % addr,
                 'STR': '.RETURN(sim::rets(x.id, x.snap, %s))' % addr,
                 'LRSTR': '.LR_RETURN(sim::rets(x.id, x.snap, %s))' % addr,
             }[rk]
@@ -242,7 +248,7 @@ def main():
         f = FUNCS[fn]
         any_m = ['ANY'] * f['arity']
         val_m = ['VAL'] * f['arity'] if f['argk'][0] != 'uptr' else any_m
-        base_rk = {'int': 'VAL', 'void': 'NONE', 'ref': 'REF_CELL', 'str': 'STR'}[f['ret']]
+        base_rk = {'int': 'VAL', 'void': 'NONE', 'ref': 'REF_CELL', 'str': 'STR', 'cref': 'CREF_CAPT'}[f['ret']]
         forced = [
             dict(bf='DEFAULT', mk=any_m, nwith=0, nseq=0, nse=0, rk=base_rk),
             dict(bf='DEFAULT', mk=val_m, nwith=0, nseq=0, nse=1, rk=base_rk),
@@ -264,7 +270,7 @@ def main():
         ]
         for fo in forced:
             shapes.append(gen_shape(rng, sid, fn, fo)); sid += 1
-    counts = [60, 26, 28, 12, 12, 12, 16]
+    counts = [60, 26, 28, 12, 12, 12, 16, 14]
     for fn, n in enumerate(counts):
         for _ in range(n):
             shapes.append(gen_shape(rng, sid, fn)); sid += 1
